@@ -4,12 +4,14 @@
    trees; both operand orders; the ten binary and two unary operators).  Leaves: integer
    constants around every type boundary, in decimal and hexadecimal, with and without u / l
    suffix, plain and escaped character constants.
-     Mode "full"  : 78 leaves (MaxDepth 1 gives every operator applied to every pair of leaves)
-     Mode "mid"   : 36 leaves (quick tier)
+     Mode "full"  : 79 leaves (MaxDepth 1 gives every operator applied to every pair of leaves)
+     Mode "mid"   : 37 leaves (quick tier)
      Mode "small" : 8 leaves, deeper trees
    Invariant AgreeKnown: wherever C defines the value, cffi's untyped evaluation gives the same
    value OR the first node where the two part belongs to one of the recorded classes
-   (ConstExpr!KnownClass).  AgreeExact (no exception) must be violated: the classes are real.
+   (ConstExpr!KnownClass: unsigned wrap-around, negative operand converted to unsigned).  AgreeExact
+   (no exception) must be violated: the classes are real.  Variant "ordchr" (character constants
+   evaluated as before fix 4d735ce) must violate AgreeKnown.
    Every defined tree is printed as <<"EXPR", enc>> for replay at the true widths.          *)
 EXTENDS ConstExpr
 CONSTANTS Mode, MaxDepth, PrintFrom
@@ -23,7 +25,7 @@ FullLeaves ==
      LET v == FullVals[((i - 1) \div 6) + 1]
          j == (i - 1) % 6
      IN Lit(IF j < 3 THEN "dec" ELSE "hex", v, <<"", "u", "l">>[(j % 3) + 1])]
-  \o <<Chr(FALSE, 97), Chr(FALSE, 48), Chr(TRUE, 110), Chr(TRUE, 116), Chr(TRUE, 48), Chr(TRUE, 92)>>
+  \o <<Chr(FALSE, 97), Chr(FALSE, 48), Chr(TRUE, 110), Chr(TRUE, 116), Chr(TRUE, 48), Chr(TRUE, 92), Chr(TRUE, 55)>>
 SmallLeaves == <<Lit("dec", 1, ""), Lit("dec", 2, ""), Lit("hex", 127, ""), Lit("hex", 255, ""),
                  Lit("dec", 3, "u"), Chr(TRUE, 110), Chr(FALSE, 97), Lit("hex", 511, "")>>
 MidVals == <<0, 1, 2, 127, 128, 255, 256, 1023>>
@@ -32,7 +34,7 @@ MidLeaves ==
      LET v == MidVals[((i - 1) \div 4) + 1]
          j == (i - 1) % 4
      IN Lit(IF j < 2 THEN "dec" ELSE "hex", v, <<"", "u">>[(j % 2) + 1])]
-  \o <<Chr(FALSE, 97), Chr(TRUE, 110), Chr(TRUE, 48), Chr(TRUE, 92)>>
+  \o <<Chr(FALSE, 97), Chr(TRUE, 110), Chr(TRUE, 48), Chr(TRUE, 92), Chr(TRUE, 55)>>
 Leaves == CASE Mode = "full" -> FullLeaves [] Mode = "mid" -> MidLeaves [] OTHER -> SmallLeaves
 BinOps == {"+", "-", "*", "/", "%", "<<", ">>", "&", "|", "^"}
 
